@@ -246,6 +246,16 @@ def make_script(combo):
     return script
 
 
+def _from_library(exc):
+    """True when the exception was raised inside opticomlib (not in harness code)"""
+    tb = exc.__traceback__
+    while tb is not None:
+        if '/opticomlib/' in tb.tb_frame.f_code.co_filename:
+            return True
+        tb = tb.tb_next
+    return False
+
+
 def call_pd(inp, p, fs, include_noise):
     from opticomlib.devices import PD
     return PD(inp, p['BW'] * fs, r=p['r'], T=p['T'], R_load=p['R_load'], include_noise=include_noise,
@@ -351,8 +361,15 @@ def case_main(case):
     for combo in itertools.product(range(len(ANSWERS)), repeat=len(expected)):
         inp = make_input(sig, noi, n_pol)
         script = make_script(combo)
-        with scripted_rng(script):
-            out = call_pd(inp, p, fs, name)
+        try:
+            with scripted_rng(script):
+                out = call_pd(inp, p, fs, name)
+        except (ValueError, TypeError) as e:
+            if not _from_library(e):
+                raise
+            viol.append((f'valid-arguments-rejected:{lc}', f'{where}: {type(e).__name__}: {e}'))
+            obs.append(('EXC', combo, type(e).__name__))
+            continue
         stats['pd_calls'] += 1
         stats['answer_combos'] += 1
         stats['rng_requests'] += len(script.requests)
